@@ -1,4 +1,3 @@
 #!/bin/sh
-# usage: gen.sh <unit> [repo]
-U=$1; R=${2:-/repo}
-cat specs/prelude.rs specs/$U.tmpl > gen/$U.full.tmpl && extract/target/release/vextract --repo $R --tmpl gen/$U.full.tmpl --out gen/$U.rs --map gen/$U.map.json
+# usage: gen.sh <unit> [repo]   -> writes gen/<unit>.rs
+exec ./check --gen "$@"
